@@ -21,6 +21,61 @@ NEAR = 1 << 20
 ANCHORS = {-2: -(1 << 64), -1: -(1 << 63), 0: 0, 1: 1 << 53, 2: 10 ** 18, 3: 1 << 63, 4: 1 << 64}
 
 
+# scales of the gscaled kind: the exact float behind each scale id of Datatypes.tla
+SCALES = {'0.1': 0.1, '0.2': 0.2, '0.01': 0.01, '0.003': 0.003, '1/3': 1 / 3, '2^-20': 2.0 ** -20,
+          '1.000001e-3': 1.000001e-3, '0.0254/4096': 0.0254 / 4096, '7': 7.0, '1e6': 1e6}
+SCALE_IDS = {v: k for k, v in SCALES.items()}
+
+
+def grid_abs(x, scale, src='num'):
+    """python number at a gscaled position -> gnum in quarter grid steps (exact rational classification);
+    the grid point n is the float n*scale, exactly what import_value / __call__ compute"""
+    fx, fs = Fraction(x), Fraction(scale)
+    u = 4 * fx / fs
+    if abs(u) >= HUGE:
+        return {'j': 'gnum', 'q': HUGE if u > 0 else -HUGE, 'ix': True, 'src': src}
+    n = round(fx / fs)
+    if float(x) == n * scale:
+        return {'j': 'gnum', 'q': 4 * n, 'ix': False, 'src': src}
+    r = round(u)
+    if abs(u - r) * (1 << 40) <= max(1, abs(u)) and r % 4:
+        return {'j': 'gnum', 'q': r, 'ix': False, 'src': src}       # a quarter / half grid point (up to float rounding)
+    return {'j': 'gnum', 'q': math.floor(u), 'ix': True, 'src': src}
+
+
+def grid_value(c, scale):
+    """gnum -> python float"""
+    if abs(c['q']) >= HUGE:
+        return math.copysign(scale * 2.0 ** 40, c['q'])
+    if not c['ix'] and c['q'] % 4 == 0:
+        return (c['q'] // 4) * scale
+    return float(Fraction(2 * c['q'] + (1 if c['ix'] else 0), 8) * Fraction(scale))
+
+
+def relativise(c, conc, dt, path):
+    """numbers offered from python (not on the wire) to a gscaled position are measured in its grid units"""
+    if dt is None or path == 'wire':
+        return c
+    k = dt['k']
+    if k == 'gscaled':
+        frappy()
+        from frappy.lib.enum import EnumMember
+        src = 'bool' if isinstance(conc, bool) else 'member' if isinstance(conc, EnumMember) else 'num'
+        v = conc.value if isinstance(conc, EnumMember) else conc
+        if isinstance(v, (bool, int)) or (isinstance(v, float) and math.isfinite(v)):
+            return grid_abs(int(v) if isinstance(v, bool) else v, SCALES[dt['sid']], src)
+        return c
+    try:
+        if c['j'] == 'list' and k in ('array', 'tuple'):
+            return {'j': 'list', 'xs': [relativise(x, conc[i], sub_type(dt, c, i), path) for i, x in enumerate(c['xs'])]}
+        if c['j'] == 'obj' and k == 'struct':
+            return {'j': 'obj', 'kv': [{'k': e['k'], 'v': relativise(e['v'], conc[e['k']], sub_type(dt, c, e['k']), path)}
+                                       for e in c['kv']]}
+    except (TypeError, KeyError, IndexError):
+        pass
+    return c
+
+
 def pos_int(a, d):
     """position -> the python int (a representative for the 'far' class)"""
     if abs(d) == FAR:
@@ -82,6 +137,18 @@ def build_type(dt):
                              None if dt['max'] == NOLIM else dt['max'] / U, **kw)
     if k == 'int':
         return fd.IntRange(dt['min'], dt['max'])
+    if k == 'gscaled':
+        sc = SCALES[dt['sid']]
+        kw = {}
+        if dt.get('abs', -1) >= 0:
+            kw['absolute_resolution'] = dt['abs'] / U
+        if dt.get('rel', -1) >= 0:
+            kw['relative_resolution'] = dt['rel'] * 0.125
+        if dt.get('unit'):
+            kw['unit'] = dt['unit']
+        if dt.get('fmt', '%g') != '%g':
+            kw['fmtstr'] = dt['fmt']
+        return fd.ScaledInteger(sc, dt['min'] * sc, dt['max'] * sc, **kw)     # limits on the grid: the floats n*scale
     if k == 'bigint':
         return fd.IntRange(pos_int(dt['min']['a'], dt['min']['d']), pos_int(dt['max']['a'], dt['max']['d']))
     if k == 'scaled':
@@ -167,6 +234,8 @@ def concrete(c, dt=None, obj=None, internal=False):
         return c['n']
     if j == 'bint':
         return pos_int(c['a'], c['d'])
+    if j == 'gnum':
+        return grid_value(c, SCALES[dt['sid']]) if dt is not None and dt['k'] == 'gscaled' else 0.0
     if j == 'num':
         t = c['t']
         if abs(t) >= HUGE:
@@ -283,7 +352,16 @@ def gamma_alpha_ok(c):
     return _same_abs(c, cand_abs(conc), conc)
 
 
+def typed_gamma_alpha_ok(c, dt):
+    """alpha(gamma(c)) = c for the grid-relative numbers of a gscaled type"""
+    if dt['k'] != 'gscaled' or c['j'] != 'gnum':
+        return True
+    return grid_abs(concrete(c, dt), SCALES[dt['sid']]) == c
+
+
 def _same_abs(c, a, conc):
+    if c['j'] == 'gnum':
+        return True          # relative to its type: checked by typed_gamma_alpha_ok
     if c['j'] == 'str':
         return a['j'] == 'str' and all(a[f] == c[f] for f in ('cls', 'len', 'blen')) and (not c['name'] or conc == c['name'])
     if c['j'] == 'list':
@@ -343,6 +421,11 @@ def alpha(res, dt, ac, conc, pa=None, pconc=None):
             lossy = abs(res) >= HUGE and (a['j'] == 'int' or abs(a['d']) == FAR)
         if lossy and not _same_number(res, conc):
             return ALTERED       # a class only stands for the very integer that was offered
+        return a
+    if isinstance(res, float) and dt is not None and dt['k'] == 'gscaled' and math.isfinite(res):
+        a = grid_abs(res, SCALES[dt['sid']])
+        if a['ix'] and not _same_number(res, conc):
+            return a if abs(a['q']) >= HUGE and _close(res, conc) else ALTERED
         return a
     if isinstance(res, float):
         if abs(res) == FMAX and not _same_number(res, conc):
@@ -493,6 +576,8 @@ def cand_class(dt, c):
         return 'int-huge' if abs(c['n']) >= HUGE else 'int'
     if j == 'bint':
         return 'int-big'
+    if j == 'gnum':
+        return 'grid-huge' if abs(c['q']) >= HUGE else 'grid-point' if not c['ix'] and c['q'] % 4 == 0 else 'off-grid'
     if j == 'special':
         return 'nan' if c['s'] == 'nan' else 'inf'
     if j == 'str':
@@ -560,6 +645,8 @@ def show(v):
         return 'int %d' % v['n']
     if j == 'bint':
         return 'int %s' % _pos_text(v)
+    if j == 'gnum':
+        return '%g%s grid steps' % (v['q'] / 4, '~' if v['ix'] else '')
     if j == 'bool':
         return str(v['b'])
     if j == 'str':
@@ -597,6 +684,8 @@ def show_type(dt):
                                                  '-' if dt['max'] == NOLIM else dt['max'] / U, dt['abs'] / U, dt['rel'] / 8)
     if k == 'int':
         return 'int(%d..%d)' % (dt['min'], dt['max'])
+    if k == 'gscaled':
+        return 'scaled(scale %s, %d..%d steps)' % (dt['sid'], dt['min'], dt['max'])
     if k == 'bigint':
         return 'int(%s..%s)' % (_pos_text(dt['min']), _pos_text(dt['max']))
     if k == 'scaled':
@@ -633,7 +722,7 @@ def is_literal(s):
 
 
 def rand_type(rnd, depth, open_strings=False, big=True):
-    kinds = ['double', 'int', 'scaled', 'bool', 'enum', 'string', 'blob'] + (['bigint'] if big else [])
+    kinds = ['double', 'int', 'scaled', 'bool', 'enum', 'string', 'blob'] + (['bigint', 'gscaled'] if big else [])
     if depth > 0:
         kinds += ['array', 'tuple', 'struct'] * 3
     k = rnd.choice(kinds)
@@ -645,6 +734,9 @@ def rand_type(rnd, depth, open_strings=False, big=True):
     if k == 'int':
         lo = rnd.randint(-300, 300)
         return {'k': k, 'min': lo, 'max': lo + rnd.choice((0, 1, rnd.randint(0, 600)))}
+    if k == 'gscaled':    # any scale of the table, limits on its grid (both signs, inexact float quotients included)
+        lo = rnd.choice((0, 3, 7, -3, -7, 29, rnd.randint(-60, 60)))
+        return {'k': k, 'sid': rnd.choice(sorted(SCALES)), 'min': lo, 'max': lo + rnd.choice((0, 1, 4, rnd.randint(0, 90), 100000))}
     if k == 'bigint':     # an int type with at least one limit beyond 2^53, declared exactly
         ps = sorted((rnd.choice((-2, -1, 0, 1, 2, 3, 4)), rnd.randint(-3, 3)) for _ in range(2))
         if all(a == 0 for a, _ in ps):
@@ -706,6 +798,14 @@ def rand_value(rnd, dt, junk=0.2):
             return rnd.choice(WEIRD_NUM)
         n = rnd.choice((dt['min'], dt['max'], 0)) + rnd.randint(-2, 2)
         return rnd.choice((n, n, float(n), n + 0.5, str(n)))
+    if k == 'gscaled':
+        if rnd.random() < 0.15:
+            return rnd.choice(WEIRD_NUM)
+        sc = SCALES[dt['sid']]
+        n = rnd.choice((dt['min'], dt['max'], 0)) + rnd.randint(-2, 2)
+        if rnd.random() < 0.4:      # wire form: grid index
+            return rnd.choice((n, n, float(n), n + 0.7, str(n)))
+        return rnd.choice((n * sc, (n + 0.5) * sc, (n + rnd.choice((-0.3, 0.26, 0.49, 0.51))) * sc, n * sc * (1 + 2.0 ** -50)))
     if k == 'bigint':
         if rnd.random() < 0.2:
             return rnd.choice([x for x in WEIRD_NUM if isinstance(x, int)] + [1.5, math.nan, 1e308, '5'])
@@ -773,6 +873,8 @@ def _valid_internal(rnd, dt, n=None):
         return {'j': 'num', 't': t, 'ix': False, 'w': t % U == 0}
     if k == 'int':
         return {'j': 'int', 'n': rnd.randint(dt['min'], dt['max'])}
+    if k == 'gscaled':
+        return {'j': 'gnum', 'q': 4 * rnd.randint(dt['min'], dt['max']), 'ix': False, 'src': 'num'}
     if k == 'bigint':
         lo, hi = pos_int(dt['min']['a'], dt['min']['d']), pos_int(dt['max']['a'], dt['max']['d'])
         return bint_abs(rnd.choice((lo, hi, min(hi, lo + rnd.randint(0, 3)), max(lo, hi - rnd.randint(0, 3)))))
@@ -822,6 +924,8 @@ def rand_valid(rnd, dt, obj):
         return float(rnd.choice(pool))
     if k == 'int':
         return rnd.choice((dt['min'], dt['max'], rnd.randint(dt['min'], dt['max'])))
+    if k == 'gscaled':
+        return rnd.choice((dt['min'], dt['max'], rnd.randint(dt['min'], dt['max']))) * SCALES[dt['sid']]
     if k == 'bigint':
         lo, hi = pos_int(dt['min']['a'], dt['min']['d']), pos_int(dt['max']['a'], dt['max']['d'])
         inside = [x for x in (2 ** 53 + 1, 10 ** 18 + 1, 2 ** 63 - 1, 2 ** 64 - 1, -(2 ** 63), 2 ** 53 - 1) if lo <= x <= hi]
@@ -1042,6 +1146,8 @@ def deco(dt, unit='', fmt='%g', dflt=True):
         return dict(dt, rel=-1 if dflt else dt['rel'], unit=unit, fmt=fmt)
     if k == 'scaled':
         return dict(dt, abs=dt['scale'] if dflt else 0, rel=-1 if dflt else 1, unit=unit, fmt=fmt)
+    if k == 'gscaled':
+        return dict(dt, abs=-1 if dflt else 0, rel=-1 if dflt else 1, unit=unit, fmt=fmt)
     if k == 'array':
         return dict(dt, el=deco(dt['el'], unit, fmt, dflt))
     if k == 'tuple':
@@ -1065,8 +1171,13 @@ def info_abs(x, keep_order=False):
         return {'j': 'list', 'xs': [info_abs(v) for v in x]}
     if isinstance(x, dict):
         keys = list(x) if keep_order else sorted(x)
-        return {'j': 'obj', 'kv': [{'k': k, 'v': info_abs(x[k], keep_order=(k == 'members' and x.get('type') == 'struct'))}
-                                   for k in keys]}
+        res = {'j': 'obj', 'kv': [{'k': k, 'v': info_abs(x[k], keep_order=(k == 'members' and x.get('type') == 'struct'))}
+                                  for k in keys]}
+        if x.get('type') == 'scaled' and isinstance(x.get('scale'), float) and x['scale'] in SCALE_IDS:
+            for e in res['kv']:          # exactly a float of the scale table: named, so that TLC can compare it
+                if e['k'] == 'scale':
+                    e['v'] = {'j': 'gscale', 'sid': SCALE_IDS[x['scale']]}
+        return res
     if x is None:
         return {'j': 'null'}
     return {'j': 'pyobject:' + type(x).__name__}
